@@ -457,13 +457,30 @@ def rule_guardset(repo, rid, modules):
                      'GUARD_TABLE for its function does' % sum(len(v) for v in GUARD_TABLE.values()), floor=1)
     n = 0
     for m in modules:
-        for f in repo.module(m).functions.values():
+        funcs = list(repo.module(m).functions.values())
+        # a tabled safeguard whose function no longer contains it (the function was renamed, or the statement was moved into a helper of the same module) is an
+        # ORPHAN; an untabled safeguard of the same kind that does the same thing in another function of the module is that safeguard, moved
+        here = {}
+        for f in funcs:
+            for kind, node in guard_sites(f.node):
+                here.setdefault((f.fq, kind), set()).add(guard_key(kind, node, f.node))
+        orphans = []
+        for (fq, kind), keys in GUARD_TABLE.items():
+            if fq.split(':')[0] == m:
+                for k in keys:
+                    if k not in here.get((fq, kind), ()):
+                        orphans.append((kind, k))
+        for f in funcs:
             n += 1
             for kind, node in guard_sites(f.node):
                 key = guard_key(kind, node, f.node)
                 allowed = GUARD_TABLE.get((f.fq, kind), {})
-                res.inst({'function': f.fq, 'kind': kind, 'safeguard': key, 'tabled': allowed.get(key)}, (f.fq, kind, key, getattr(node, 'lineno', 0)))
-                if key not in allowed:
+                moved = key not in allowed and (kind, key) in orphans
+                if moved:
+                    orphans.remove((kind, key))
+                res.inst({'function': f.fq, 'kind': kind, 'safeguard': key, 'tabled': allowed.get(key) or ('moved within the module' if moved else None)},
+                         (f.fq, kind, key, getattr(node, 'lineno', 0)))
+                if key not in allowed and not moved:
                     what = {'sat': 'saturates / sanitises a value', 'eps': 'adds (or scales by) an epsilon', 'exc': 'catches an exception without re-raising',
                             'thr': 'switches on a threshold (a small literal / a machine epsilon): a regime or guard of its own'}[kind]
                     res.add(Finding(rid, f, '`%s` %s (%s) and is not one of the reviewed safeguards of %s (%s): it changes the result for the inputs it touches - admissible '
@@ -508,12 +525,18 @@ def rule_rng(repo, rid, modules):
                      'random' % len(RNG_TABLE), floor=1)
     n = 0
     for m in modules:
-        for f in repo.module(m).functions.values():
+        funcs = list(repo.module(m).functions.values())
+        cur = {f.fq: len(rng_sites(f.node)) for f in funcs}
+        budget = sum(max(0, k - cur.get(fq, 0)) for fq, k in RNG_TABLE.items() if fq.split(':')[0] == m)      # tabled draws that left their function: moved within the module
+        for f in funcs:
             n += 1
             sites = rng_sites(f.node)
             if not sites and f.fq not in RNG_TABLE:
                 continue
             allowed = RNG_TABLE.get(f.fq, 0)
+            if len(sites) > allowed and budget >= len(sites) - allowed:
+                budget -= len(sites) - allowed
+                allowed = len(sites)
             res.inst({'function': f.fq, 'random draws': [src(c)[:50] for c in sites], 'tabled': allowed}, f.fq)
             for c in sites[allowed:] if len(sites) > allowed else []:
                 res.add(Finding(rid, f, '`%s` draws from the random generator in %s (%d draw sites tabled): the state of the generator after the call - and with it every later '
@@ -566,7 +589,13 @@ def rule_attrs(repo, rid, modules):
             if not ws and f.fq not in ATTR_TABLE:
                 continue
             n += 1
-            allowed = ATTR_TABLE.get(f.fq, set())
+            allowed = set(ATTR_TABLE.get(f.fq, set()))
+            # the documented state of the CLASS is what its methods are tabled to write: a tabled attribute written from another method of the same class family (the
+            # statement was moved into a helper method, the method was renamed) is still that state, not a newly kept value
+            fam = [f.cls] + [c for c in repo.mro(f.cls)[1:] if not isinstance(c, str)] + repo.subclasses_of(f.cls)
+            for c in fam:
+                for g in c.methods.values():
+                    allowed |= ATTR_TABLE.get(g.fq, set())
             new = sorted(set(ws) - allowed)
             res.inst({'function': f.fq, 'attributes written': sorted(ws), 'not tabled': new}, f.fq)
             for a in new:
@@ -755,13 +784,27 @@ def rule_hygiene(repo, rid, modules):
                      'setters occur only at the %d reviewed (function, kind) entries of HYGIENE_TABLE, no more often than tabled' % len(HYGIENE_TABLE), floor=1)
     n = 0
     for m in modules:
-        for f in repo.module(m).functions.values():
+        funcs = list(repo.module(m).functions.values())
+        # sites tabled for a function of this module that are no longer there (function renamed, statement moved into a helper): a budget that an untabled site of
+        # the same kind elsewhere in the module may use - the statement was moved, not added
+        cur = {}
+        for f in funcs:
+            for key, node in hygiene_sites(f):
+                cur[(f.fq, key)] = cur.get((f.fq, key), 0) + 1
+        budget = {}
+        for (fq, key), (allowed, why) in HYGIENE_TABLE.items():
+            if fq.split(':')[0] == m and allowed > cur.get((fq, key), 0):
+                budget[key] = budget.get(key, 0) + allowed - cur.get((fq, key), 0)
+        for f in funcs:
             n += 1
             got = {}
             for key, node in hygiene_sites(f):
                 got.setdefault(key, []).append(node)
             for key, nodes in sorted(got.items()):
                 allowed, why = HYGIENE_TABLE.get((f.fq, key), (0, None))
+                if len(nodes) > allowed and budget.get(key, 0) >= len(nodes) - allowed:
+                    budget[key] -= len(nodes) - allowed
+                    allowed, why = len(nodes), 'moved within the module'
                 res.inst({'function': f.fq, 'kind': key, 'sites': len(nodes), 'tabled': allowed, 'reason': why}, (f.fq, key))
                 if len(nodes) > allowed:
                     x = nodes[-1] if allowed else nodes[0]
